@@ -103,7 +103,8 @@ class Check:
         maxlvl = max([n["path"].count("/") for n in world["nodes"]] + [1])
         for t in tops:
             roots.append({"top": t, "kind": rng.choice(["rel", "rel", "dotrel", "abs"]),
-                          "mind": rng.choice([0, 0, 0, 1, 2]), "maxd": rng.choice([0, 0, 0, 1, 2, 3, maxlvl + 1]),
+                          # depth windows anywhere in the tree: a level miscounted after a fault only shows at a window border
+                          "mind": 0 if rng.random() < 0.4 else rng.randint(1, maxlvl + 1), "maxd": 0 if rng.random() < 0.4 else rng.randint(1, maxlvl + 2),
                           "mode": rng.choice(["bfs", "dfs"])})
         return roots
 
